@@ -665,8 +665,102 @@ def r3b_local_prefix_scan(ctx):
             f'{f.qual}: the listing can finish without scanning the directory of the prefix (path {" -> ".join(f"{n.kind}@{n.lineno}" for n in (bypass or []) if n.lineno)[:160]}): entries whose names merely start with the prefix are not reported - '
             'the adapter answers differently from S3 / B2 for the same store contents',
         )
+        # the entries directly under the prefix directory are classified the way exists / download / upload reach them:
+        # through symbolic links (a shard directory moved to another disk and linked back is still part of the store)
+        kinds = [c for c in calls_in(f.node) if isinstance(c.func, ast.Attribute) and c.func.attr in ('is_dir', 'is_file')]
+        nofollow = [c for c in kinds if isinstance(kwarg(c, 'follow_symlinks'), ast.Constant) and kwarg(c, 'follow_symlinks').value is False]
+        ctx.check(
+            not nofollow,
+            'C13.R3',
+            f'{func_label(f)}|top-level-entries-follow-links',
+            loc(f, nofollow[0]) if nofollow else loc(f, f.node),
+            f'{f.qual}: entries under the prefix directory are classified with symbolic links followed, like exists() / download()',
+            f'{f.qual}: `{src(nofollow[0], 50) if nofollow else ""}` does not follow symbolic links: a linked directory / object that exists() and download() reach is missing from the listing '
+            '(snapshots under it vanish from the listings, restore picks an older version, clean removes their chunks)',
+        )
         filt = [c for c in calls_in(f.node) if isinstance(c.func, ast.Attribute) and c.func.attr == 'startswith']
         ctx.check(bool(filt), 'C13.R3', f'{func_label(f)}|entries-filtered-by-startswith', loc(f, f.node), f'{f.qual}: entries are filtered with startswith(<basename of the prefix>)', f'{f.qual}: no startswith filter on the scanned entries')
+
+
+def r10_download_stream_discipline(ctx):
+    """download_stream leaves exactly the object's bytes in the destination: the stream is cut to the announced length
+    (or emptied when none is announced) on EVERY path before the first byte is written, and the local adapter takes
+    that length from the descriptor it then copies from - not from a second look at the path, which may by then
+    name a replaced object."""
+    corpus = ctx.corpus
+    n = 0
+    for ci in backend_classes(corpus):
+        f = own_methods(corpus, ci).get('download_stream')
+        if f is None or f.cls is not ci and ci.name == 'S3':
+            continue
+        prm = [a.arg for a in f.node.args.posonlyargs + f.node.args.args]
+        if len(prm) < 3:
+            continue
+        sp = prm[2]
+        ctx.analysed(f)
+        cfg = cfg_of(f.node)
+        truncs = [c for c in calls_in(f.node) if isinstance(c.func, ast.Attribute) and c.func.attr == 'truncate' and isinstance(c.func.value, ast.Name) and c.func.value.id == sp]
+        writes = [c for c in calls_in(f.node) if (isinstance(c.func, ast.Attribute) and c.func.attr == 'write' and isinstance(c.func.value, ast.Name) and c.func.value.id == sp) or ((dotted(c.func) or '').endswith('copyfileobj') and len(c.args) >= 2 and isinstance(c.args[1], ast.Name) and c.args[1].id == sp)]
+        if not writes:
+            continue
+        n += 1
+        tn = [x for c in truncs for x in (cfg.nodes_of(enclosing_stmt(c), 'ok') or cfg.nodes_of(enclosing_stmt(c), 'stmt'))]
+        ok = bool(tn) and all(cfg.set_dominates(tn, x) for c in writes for x in cfg.nodes_of(enclosing_stmt(c), ('stmt', 'loop')))
+        ctx.check(
+            ok,
+            'C13.R6',
+            f'{func_label(f)}|destination-cut-before-first-write',
+            loc(f, writes[0]),
+            f'{ci.name}.download_stream: `{sp}.truncate(..)` runs on every path before the first byte is written',
+            f'{ci.name}.download_stream: bytes can be written without `{sp}.truncate(..)` having run on that path (e.g. only when a length is announced): what an earlier attempt / an earlier use left in '
+            'the destination survives behind a shorter object - a version the object never had',
+        )
+        if ci.module.rel.endswith('local.py'):
+            for c in truncs:
+                arg = c.args[0] if c.args else None
+                d = deref_at(f.node, arg) if isinstance(arg, ast.Name) else arg
+                from_fd = isinstance(d, ast.Attribute) and d.attr == 'st_size' and isinstance(d.value, ast.Call) and (dotted(d.value.func) or '') == 'os.fstat'
+                ctx.check(
+                    from_fd,
+                    'C13.R6',
+                    f'{func_label(f)}|length-of-the-open-descriptor',
+                    loc(f, c),
+                    f'{ci.name}.download_stream: the length is os.fstat(<open file>).st_size - the size of the very object that is copied',
+                    f'{ci.name}.download_stream: the length `{src(arg, 40) if arg is not None else ""}` is not taken from the open descriptor (os.fstat(file.fileno())): an upload that replaces the object between the size '
+                    'lookup and the open makes the download deliver the new bytes padded / cut to the old length',
+                )
+    ctx.floor('C13.R6', 'download_stream implementations writing into the destination', n, 3)
+
+
+def r11_wrappers_forward_arguments(ctx, rule='C13.R1'):
+    """A decorator wrapper `def wrapper(self, *a, **ka)` around a backend method hands the method - and itself, when it
+    retries - the arguments it was called with: every call of the wrapped function / of the wrapper carries both *a and
+    **ka.  Dropping one re-issues e.g. a page request without its continuation and prefix."""
+    corpus = ctx.corpus
+    n = 0
+    for mname in ('utils', 'b2', 's3c', 'local', 'base'):
+        for f in corpus.module(mname).all_functions:
+            a = f.node.args
+            if a.vararg is None or a.kwarg is None or f.parent is None:
+                continue
+            outer = f.parent
+            wrapped = {x.arg for x in outer.node.args.posonlyargs + outer.node.args.args}
+            targets = wrapped | {f.name}
+            for c in calls_in(f.node):
+                if isinstance(c.func, ast.Name) and c.func.id in targets:
+                    n += 1
+                    has_va = any(isinstance(x, ast.Starred) and isinstance(x.value, ast.Name) and x.value.id == a.vararg.arg for x in c.args)
+                    has_kw = any(k.arg is None and isinstance(k.value, ast.Name) and k.value.id == a.kwarg.arg for k in c.keywords)
+                    ctx.check(
+                        has_va and has_kw,
+                        rule,
+                        f'{func_label(f)}|wrapper-forwards-all-arguments',
+                        loc(f, c),
+                        f'{outer.name}.{f.name}: `{src(c, 50)}` forwards *{a.vararg.arg} and **{a.kwarg.arg}',
+                        f'{outer.name}.{f.name}: `{src(c, 50)}` does not forward {"*" + a.vararg.arg if not has_va else "**" + a.kwarg.arg}: the (re)issued call runs with other arguments than the caller gave - '
+                        'e.g. a listing page requested again after re-authentication without its start marker and prefix (names outside the prefix, duplicates)',
+                    )
+    ctx.floor(rule, 'forwarding calls in decorator wrappers', n, 2)
 
 
 def r9_b2_bucket_record(ctx):
@@ -713,6 +807,8 @@ def run(ctx):
     r2_rewind(Relabel(ctx, 'C13.R6'), rule='C13.R6')
     r8_no_shared_mutable_state(ctx)
     r9_b2_bucket_record(ctx)
+    r10_download_stream_discipline(ctx)
+    r11_wrappers_forward_arguments(ctx)
     r7_exists_answer(ctx)
     r6_temp_invisible(ctx)
     r1_conformance(ctx)
